@@ -344,6 +344,7 @@ func c01qualifiers(c *core.Check) {
 	c.Analysed["qualifier_sites"] = n
 	c.Min("qualifier-is-import-alias", 3)
 	pkgIdentityByPath(c)
+	c01mapKeyRepresentable(c)
 }
 
 type sync2 = sync.Mutex
